@@ -7,6 +7,7 @@ from .. import paths
 from ..core import FUNC, call_attr, calls_in, const, dotted, is_const, kwarg, norm, slice_parts, text, walk_local
 
 EXPLANATION = [
+    'C14.jacobian-add: in _JacobianPoint.__add__ every assignment of U1, U2, S1, S2 is the polynomial X1*Z2^2, X2*Z1^2, Y1*Z2^3, Y2*Z1^3 (compared as polynomials, modulo p); an unscaled shortcut is accepted only under the guard that the other operand has Z = 1.',
     'C14.scalar-range: any guard the built-in back end puts on a private scalar (from_private_key_bytes) accepts the whole range [1, n-1] (range(a, b) needs a <= 1 and b >= n; comparisons with n must not refuse n - 1), so both back ends derive a key for every valid scalar.',
     'C14.reject-then-leave: when the SMP session rejects a peer value (e.g. a public key that is not on the curve) it stops: no key is derived and nothing more is sent on that path (same rule as C13.fail-then-leave).',
     'C14.scalar-mult: the built-in double-and-add loop runs until the scalar is exhausted (or for at least bit_length(group order) iterations) and its body is one conditional add on the low bit, one doubling, one one-bit shift.',
@@ -236,6 +237,17 @@ def validate(ctx):
     R.check(len(raising) == 1, rule, f'{B}._EllipticCurve.ecdh_shared_secret | rejects', 'an off-curve point raises', 'the validity test does not raise', p.loc(fn))
     inf = [n for n in walk_local(fn) if isinstance(n, ast.If) and 'infinite' in norm(n.test) and any(isinstance(x, ast.Raise) for x in n.body)]
     R.check(len(inf) == 1, rule, f'{B}._EllipticCurve.ecdh_shared_secret | infinity', 'a result at infinity raises', 'point at infinity is not rejected', p.loc(fn))
+    # the coordinates that the range test sees are the received ones: the affine point class does not rewrite them on
+    # construction (a reduction mod p there would make the range test above unable to fail)
+    pt = p.cls(f'{B}._Point')
+    if pt is None:
+        R.bad(rule, f'{B}._Point', 'anchor missing')
+    else:
+        writes = [(mn, n) for mn, m_ in pt.methods.items() for n in ast.walk(m_) if isinstance(n, (ast.Assign, ast.AugAssign, ast.AnnAssign))
+                  for t in (n.targets if isinstance(n, ast.Assign) else [n.target]) if dotted(t) in ('self.x', 'self.y')]
+        setattrs = [(mn, c) for mn, m_ in pt.methods.items() for c in ast.walk(m_) if isinstance(c, ast.Call) and (dotted(c.func) or '').endswith('__setattr__') and c.args and is_const(c.args[-2] if len(c.args) >= 2 else c.args[0]) and const(c.args[-2] if len(c.args) >= 2 else c.args[0]) in ('x', 'y')]
+        R.check(not writes and not setattrs, rule, f'{B}._Point | coordinates kept as given', 'no method of the point class assigns x or y',
+                f'{B}._Point rewrites its coordinates in {sorted({mn for mn, _ in writes + setattrs})}: a coordinate >= p is reduced before ecdh_shared_secret tests its range, so the non-canonical encoding of a curve point is accepted by this back end only', p.loc((writes + setattrs)[0][1]) if writes or setattrs else p.loc(pt.node))
     # the library back end: the library checks the curve equation itself but reduces coordinates >= p silently, so the
     # exchange must be dominated by a range test of both coordinates against the P-256 prime (value from FIPS 186-4 D.1.2.3)
     P256 = 0xFFFFFFFF00000001000000000000000000000000FFFFFFFFFFFFFFFFFFFFFFFF
@@ -432,6 +444,54 @@ def rpa_layout(ctx):
 
 
 
+def jacobian_add(ctx):
+    """Point addition in Jacobian coordinates brings both operands to a common denominator first: U1 = X1*Z2^2,
+    U2 = X2*Z1^2, S1 = Y1*Z2^3, S2 = Y2*Z1^3 (mod p).  Every assignment of these four names has that polynomial; a shortcut
+    that leaves one of them unscaled is only right when the *other* point's Z is 1, which must then be the guard."""
+    R, p = ctx.r, ctx.p
+    rule = 'C14.jacobian-add'
+    fn = p.find(f'{B}._JacobianPoint.__add__')
+    if fn is None:
+        R.bad(rule, f'{B}._JacobianPoint.__add__', 'anchor missing')
+        return
+    env = {'self.x': 'x1', 'self.y': 'y1', 'self.z': 'z1', 'other.x': 'x2', 'other.y': 'y2', 'other.z': 'z2'}
+    for n in walk_local(fn):
+        if isinstance(n, ast.Assign) and isinstance(n.targets[0], ast.Name) and norm(n.value) in env:
+            env[n.targets[0].id] = env[norm(n.value)]
+    WANT = {'u1': {('x1', 'z2', 'z2'): 1}, 'u2': {('x2', 'z1', 'z1'): 1}, 's1': {('y1', 'z2', 'z2', 'z2'): 1}, 's2': {('y2', 'z1', 'z1', 'z1'): 1}}
+    OTHER_Z = {'u1': 'z2', 's1': 'z2', 'u2': 'z1', 's2': 'z1'}
+    seen = {k: 0 for k in WANT}
+    bad = []
+
+    def strip_mod(e):
+        return e.left if isinstance(e, ast.BinOp) and isinstance(e.op, ast.Mod) else e
+    for n in walk_local(fn):
+        if not isinstance(n, ast.Assign):
+            continue
+        tg = n.targets[0]
+        pairs = list(zip(tg.elts, n.value.elts)) if isinstance(tg, ast.Tuple) and isinstance(n.value, ast.Tuple) and len(tg.elts) == len(n.value.elts) else [(tg, n.value)]
+        for t, v in pairs:
+            name = dotted(t)
+            if name not in WANT:
+                continue
+            seen[name] += 1
+            try:
+                poly = {tuple(sorted(env.get(x, x) for x in k)): c for k, c in _poly(strip_mod(v), env).items()}
+            except ValueError:
+                poly = None
+            if poly == WANT[name]:
+                continue
+            # the unscaled form is acceptable only under the guard that the other point's Z is 1
+            unscaled = {(WANT[name] and list(WANT[name])[0][0],): 1}
+            g = [(norm(tt), pol) for tt, pol in paths.flat_guards(n)]
+            oz = OTHER_Z[name]
+            guard_ok = any(pol and tt.replace('self.z', 'z1').replace('other.z', 'z2') in (f'{oz} == 1',) for tt, pol in g)
+            if not (poly == unscaled and guard_ok):
+                bad.append(f'{name} = {norm(v)} under {[tt for tt, pol in g if pol]}')
+    R.check(all(seen.values()) and not bad, rule, f'{B}._JacobianPoint.__add__ | common denominator', 'U1 = X1*Z2^2, U2 = X2*Z1^2, S1 = Y1*Z2^3, S2 = Y2*Z1^3 at every assignment',
+            f'an operand is not brought to the common denominator ({bad[:2]}): the sum is wrong whenever that shortcut is taken (e.g. for every odd scalar in double-and-add), so public keys and DH keys differ from the library back end', p.loc(fn))
+
+
 def scalar_mult(ctx):
     """Double-and-add processes every bit of the scalar."""
     R, p = ctx.r, ctx.p
@@ -491,6 +551,7 @@ def reject_then_leave(ctx):
 
 
 RULES = [
+    ('C14.jacobian-add', jacobian_add),
     ('C14.scalar-range', scalar_range),
     ('C14.reject-then-leave', reject_then_leave),
     ('C14.scalar-mult', scalar_mult),
